@@ -358,7 +358,12 @@ func TestC20Primitives(t *testing.T) {
 		}
 		// ray / quad intersection against the exact plane equation
 		from, to := genBounded(rt, "from"), genBounded(rt, "to")
-		if uni(rt, "through", 2) == 0 { // aim through the quad
+		if uni(rt, "short_probe", 4) == 0 { // a very short vertical probe through the quad
+			d := pick(rt, "probe", []float32{1.0 / 65536, 1.0 / 32768, 1.0 / 16384, 1.0 / 4096, 1.0 / 256})
+			from = [3]float32{qa.C[0] + float32(uni(rt, "ox", 101)-50)/100*qa.E[0], qa.C[1] + d, qa.C[2] + float32(uni(rt, "oz", 101)-50)/100*qa.E[2]}
+			to = [3]float32{from[0], qa.C[1] - d, from[2]}
+			labels["short_probe"] = 1
+		} else if uni(rt, "through", 2) == 0 { // aim through the quad
 			from = [3]float32{qa.C[0] + float32(uni(rt, "ox", 201)-100)/100*qa.E[0], qa.C[1] + float32(1+uni(rt, "up", 300))/100, qa.C[2] + float32(uni(rt, "oz", 201)-100)/100*qa.E[2]}
 			to = [3]float32{from[0] + float32(uni(rt, "sx", 201)-100)/100, qa.C[1] - float32(1+uni(rt, "down", 300))/100, from[2] + float32(uni(rt, "sz", 201)-100)/100}
 		}
@@ -407,6 +412,7 @@ func TestC20Primitives(t *testing.T) {
 type sharedCase struct {
 	Quads []quadIn `json:"quads"`
 	Ops   []int    `json:"ops"` // per quad: what happens before it (0 nothing, 1 a member joins, 2 a non-sampling member leaves, 3 sampler changes)
+	Who   []int    `json:"who"` // which member (index among the candidates)
 }
 
 func runShared(t *testing.T, c sharedCase) (viol string) {
@@ -433,6 +439,8 @@ func runShared(t *testing.T, c sharedCase) (viol string) {
 		members := []int{0, 1}
 		sampler := 0
 		next := 2
+		creatorLeft := false
+		_ = creatorLeft
 		check := func(stage string) bool {
 			observer := members[len(members)-1]
 			n := len(w.Inbox(observer))
@@ -478,9 +486,13 @@ func runShared(t *testing.T, c sharedCase) (viol string) {
 				}
 			case 2:
 				if len(members) > 2 {
-					idx := len(members) - 1
+					// any member but the current sampler may leave, the session's creator included
+					idx := c.Who[i%len(c.Who)] % len(members)
 					if members[idx] == sampler {
-						idx--
+						idx = (idx + 1) % len(members)
+					}
+					if members[idx] == 0 {
+						creatorLeft = true
 					}
 					w.Close(members[idx])
 					members = append(members[:idx], members[idx+1:]...)
@@ -489,7 +501,7 @@ func runShared(t *testing.T, c sharedCase) (viol string) {
 					}
 				}
 			case 3:
-				sampler = members[(i+1)%len(members)]
+				sampler = members[(i+1+c.Who[i%len(c.Who)])%len(members)]
 			}
 			w.Send(sampler, &dagazpb.DagazQuadSample{Type: TQuadSample, Timestamp: ts, Samples: []*dagazpb.Quad{q.proto()}})
 			ref.InsertQuad(dagaz.NewQuadFromProtobuf(q.proto()))
@@ -510,7 +522,7 @@ func TestC20Shared(t *testing.T) {
 	t.Cleanup(col.Write)
 	if rp := os.Getenv("VERIF_REPLAY"); rp != "" {
 		var c sharedCase
-		if err := readJSON(rp, &c); err != nil || len(c.Quads) == 0 || len(c.Ops) == 0 {
+		if err := readJSON(rp, &c); err != nil || len(c.Quads) == 0 || len(c.Ops) == 0 || len(c.Who) == 0 {
 			t.Skipf("replay file not usable: %v", err)
 		}
 		if v := runShared(t, c); v != "" {
@@ -528,6 +540,7 @@ func TestC20Shared(t *testing.T) {
 		for range qs {
 			o := uni(rt, "op", 4)
 			c.Ops = append(c.Ops, o)
+			c.Who = append(c.Who, uni(rt, "who", 6))
 			if o == 1 {
 				joins++
 			}
